@@ -233,6 +233,24 @@ static void bk_case(vf::Draw& d, vf::Case& c)
     }
     const Real shift = (Real) shift_l;
     const ld sigma = (ld) shift;
+    // exactly singular pivot by construction: row and column p of A - sigma I vanish exactly (a_pp = sigma, the rest of the line zero).
+    // Whatever the pivoting order, elimination keeps that line zero, so a zero pivot with a zero column is met at some step
+    // (position p is drawn: first, last, second to last, ... steps are all reached) and NumericalIssue must be reported.
+    bool zero_line = d.one_in("exact_zero_line", 4);
+    Index zero_at = 0;
+    if (zero_line)
+    {
+        zero_at = (Index) d.range("zero_line_at", 0, n - 1);
+        for (Index i = 0; i < n; i++)
+        {
+            A(i, zero_at) = 0;
+            A(zero_at, i) = 0;
+        }
+        A(zero_at, zero_at) = cld(sigma, 0);
+        c.cls("exact_zero_line");
+        if (zero_at == n - 2)
+            c.cls("exact_zero_line_at_n-2");
+    }
     int form = (int) d.range("form", 0, 4);
     int uplo_first = d.flag("upper_first") ? Eigen::Upper : Eigen::Lower;
     bool via_ctor = d.flag("ctor_computes");
@@ -317,6 +335,9 @@ static void bk_case(vf::Draw& d, vf::Case& c)
         c.cls("recompute_after_failure");
 
     VF_CHECK(info1 == Spectra::CompInfo::Successful || info1 == Spectra::CompInfo::NumericalIssue, "status", "info() = " << (int) info1 << " after compute() (neither Successful nor NumericalIssue)");
+    if (zero_line)
+        VF_CHECK(info1 == Spectra::CompInfo::NumericalIssue, "singular_pivot_not_reported",
+                 "row/column " << zero_at << " of A - sigma I is exactly zero (n=" << n << ") but info() = " << (int) info1 << ": an exactly singular pivot was met and numbers are returned instead of NumericalIssue");
     if (well_conditioned)
         VF_CHECK(info1 == Spectra::CompInfo::Successful, "false_singular", "info() = NumericalIssue for a matrix with sigma_min/||M|| = " << vf::num(smin / normM));
     if (info1 == Spectra::CompInfo::NumericalIssue)
